@@ -1336,6 +1336,8 @@ def run_cases(ctx, cases, tag, with_model=True):
                     if sum(1 for v in inside.values() if v == ob[2]) > 1:
                         dist['overlapping_calls'] = dist.get('overlapping_calls', 0) + 1
                 elif ob[0] in ('wr', 'crash'):
+                    if ob[0] == 'crash' and ob[1] in inside:
+                        dist['crash_inside_call'] = dist.get('crash_inside_call', 0) + 1
                     inside.pop(ob[1], None)
             if case.get('kind'):
                 dist.setdefault('kinds', {})
